@@ -10,19 +10,31 @@ using namespace c13;
 
 struct Op { int c, glue; };   // glue=1: same segment as the previous command (no loop pass in between)
 static const char *CMD[] = {"p a", "p b c", "history", "exit", "!!", "!0", "!1", "!19", "!20", "!21", "!-1", "!-20", "!-21",
-                            "!2147483647", "!-2147483648", "!99999999999", "!-99999999999", "!x"};
-enum { NCMD = 18 };
+                            "!2147483647", "!-2147483648", "!99999999999", "!-99999999999", "!x",
+                            "p a;!!;p b", "p a;!0;p b c", "!-1;p c"};      // ';'-chains with a history reference that is not the last command
+enum { NCMD = 21 };
 
 static Args split_sp(const std::string &l) { Args a; size_t p = 0; while (p < l.size()) { size_t q = l.find(' ', p); if (q == std::string::npos) q = l.size(); if (q > p) a.push_back(l.substr(p, q - p)); p = q + 1; } return a; }
 
 // ---- reference: history of the most recent 20 stored lines + history references (DESIGN 1.7) -----------------
-struct Expect { bool error = false, listing = false, has_call = false, exit = false; Args call; std::deque<std::string> listed; std::string shape; };
+struct Expect { bool error = false, listing = false, has_call = false, exit = false; Args call; std::deque<std::string> listed; std::string shape;
+                bool chain = false, judged = true; std::vector<Args> calls; };   // chain: the probe calls of the whole line, in order (judged only when every referenced entry is a plain probe line)
 struct CRef {
   std::deque<std::string> hist;
   void store(const std::string &l) { hist.push_back(l); if (hist.size() > 20) hist.pop_front(); }
   void run_entry(const std::string e, Expect &x) { if (e == "exit") x.exit = true; else { x.has_call = true; x.call = split_sp(e); } store(e); }   // stored in expanded form
   Expect exec(const std::string &line) {
     Expect x;
+    if (line.find(';') != std::string::npos) {      // chain: every piece runs in order; what the line leaves in the history is not judged (the reference adopts it)
+      x.chain = true; x.shape = "chain-with-history-reference"; size_t p = 0;
+      while (p <= line.size()) { size_t q = line.find(';', p); if (q == std::string::npos) q = line.size(); std::string pc = line.substr(p, q - p); p = q + 1;
+        std::string e;
+        if (pc == "!!") { if (hist.empty()) { x.judged = false; break; } e = hist.back(); }
+        else if (pc[0] == '!') { long long v = std::stoll(pc.substr(1)), n = (long long)hist.size(); if (v >= 0 && v < n) e = hist[(size_t)v]; else if (v < 0 && -v <= n) e = hist[(size_t)(n + v)]; else { x.judged = false; break; } }
+        else e = pc;
+        if (e.compare(0, 2, "p ") != 0 || e.find(';') != std::string::npos) { x.judged = false; break; }
+        x.calls.push_back(split_sp(e)); }
+      return x; }
     if (line == "history") { x.listing = true; x.listed = hist; x.shape = "history-command"; }          // not stored
     else if (line == "exit") { x.exit = true; store(line); x.shape = "exit-command"; }
     else if (line == "!!") { if (hist.empty()) { x.error = true; x.shape = "history-bang-bang-on-empty-history"; } else { x.shape = "history-bang-bang"; run_entry(hist.back(), x); } }
@@ -83,6 +95,8 @@ struct World {
       SessionContext *s = term.impl_->sessions_.at(st);
       if (s == nullptr) { viol = "session-vanished-without-exit"; return false; }
       if (s->history.size() > 20) { viol = "history-longer-than-20"; return false; }
+      bool had_chain = false; for (auto &x : exp) if (x.chain) had_chain = true;
+      if (had_chain) ref.hist.assign(s->history.begin(), s->history.end());     // storage rule of chain lines is not judged: adopt
       if (s->history.size() != ref.hist.size() || !std::equal(ref.hist.begin(), ref.hist.end(), s->history.begin())) {
         std::string a, b; for (auto &x : s->history) a += x + "|"; for (auto &x : ref.hist) b += x + "|";
         viol = "history-differs-from-the-most-recent-20-stored-lines after=" + shape + " impl=" + a + " ref=" + b; return false; }
@@ -100,7 +114,9 @@ struct World {
       std::vector<Args> calls; for (auto &cl : g_calls) if (cl.second >= start && cl.second < end) calls.push_back(cl.first);
       start = end;
       std::string what = " cmd='" + lines[i] + "' out='" + esc(pc.substr(0, 100)) + "'";
-      if (x.error) {
+      if (x.chain) {
+        if (x.judged && calls != x.calls) { std::string got; for (auto &cl : calls) { got += "["; for (auto &a : cl) got += a + ","; got += "]"; } viol = x.shape + "-ran-the-wrong-command-list got=" + (got.empty() ? "<none>" : got) + what; return false; }
+      } else if (x.error) {
         if (!calls.empty()) { viol = x.shape + "-ran-a-command-instead-of-reporting-an-error" + what; return false; }
         if (pc.find("Error") == std::string::npos && pc.find("error") == std::string::npos) { viol = x.shape + "-no-error-reported" + what; return false; }
       } else if (x.has_call) {
